@@ -567,8 +567,9 @@ fn models_a(tier: Tier) -> Vec<(String, Arc<MA>, Vec<Plan>)> {
 
 pub fn run(tier: Tier) -> Report {
     let mut rep = Report::new();
+    crate::realx::run_for(&mut rep, "C14", tier.is_quick());
     if let Err(e) = glue_fingerprint() {
-        rep.machinery_errors.push(e);
+        rep.machinery_errors.push(format!("{e} (the mirrored explorations were skipped; the real-loop explorations above were run)"));
         return rep;
     }
     let lim = Limits {
@@ -605,6 +606,9 @@ pub fn run(tier: Tier) -> Report {
 }
 
 pub fn replay(v: &Value) -> Result<(), String> {
+    if let Some(r) = crate::realx::replay_for("C14", v) {
+        return r;
+    }
     let label = v["exploration"].as_str().unwrap_or("");
     if label.starts_with("sample-filter") {
         return engine::replay_json(&[("sample-filter".to_string(), Arc::new(MB::new()))], v);
